@@ -130,6 +130,9 @@ func (w *hostileWorld) Exec(p *Plan, st *RunStats) *Violation {
 				o.Fail("C17", "wrote-stderr", "%s wrote to standard error: %q", op, se)
 			}
 		}
+		if traceOn {
+			trace("op %d %s -> %016x", op.ID, op.N, hashStr(s.Obs()))
+		}
 		if o.Failed() {
 			break
 		}
